@@ -509,8 +509,53 @@ func c02Coerce(c *mon.Ctx, r *rand.Rand) {
 	c.Count("coerce_direct")
 }
 
+// pairs of numeric literals that collide under common 32-bit hashes
+// (FNV-1a, FNV-1, Adler-32): anything that identifies a literal by such a
+// hash instead of by its text confuses them. Evaluated one after the other in
+// the same process.
+var c02HashTwins = [][2]string{{"40189", "797186"}, {"40188", "797187"}, {"947356", "1061680"}, {"947357", "1061681"}, {"479599", "662382"}, {"479598", "662383"}, {"479199", "662782"},
+	{"120", "201"}, {"121", "202"}, {"125", "206"}, {"82369", "gylya"}, {"947012", "10617.0"}}
+
+func c02Twins(c *mon.Ctx, r *rand.Rand) {
+	for _, p := range c02HashTwins {
+		for _, order := range [][2]string{{p[0], p[1]}, {p[1], p[0]}} {
+			for _, t := range []*univ.Type{univ.TInt64, univ.TInt, univ.TUint32, univ.TFloat64, univ.TString} {
+				mk := func(lit string) (*univ.Node, bool) {
+					switch {
+					case t.K == univ.KString:
+						return univ.Str(lit), true
+					case t.K.IsFloat():
+						f, err := strconv.ParseFloat(lit, 64)
+						return univ.FloatOf(t, f), err == nil
+					case t.K.IsUint():
+						u, err := strconv.ParseUint(lit, 10, 32)
+						return univ.UintOf(t, u), err == nil
+					}
+					i, err := strconv.ParseInt(lit, 10, 64)
+					return univ.IntOf(t, i), err == nil
+				}
+				first, ok1 := mk(order[0])
+				if !ok1 {
+					continue
+				}
+				c02Expect(c, r, first, order[0], "T", "hash-twin-first")
+				if second, ok2 := mk(order[1]); ok2 {
+					c02Expect(c, r, second, order[1], "T", "hash-twin-second")
+					c02Expect(c, r, first, order[1], "F", "hash-twin-second")
+				} else {
+					c02Expect(c, r, first, order[1], "E", "hash-twin-second-ill-typed")
+				}
+			}
+		}
+	}
+	c.Count("hash_twin_rounds")
+}
+
 func c02Run(c *mon.Ctx, idx int) {
 	r := c.RNG(idx)
+	if idx%500 == 0 {
+		c02Twins(c, r)
+	}
 	switch idx % 8 {
 	case 0, 1:
 		c02Ints(c, r)
@@ -542,7 +587,7 @@ func init() {
 		NumCases:    func(tier string) int { return tierN(tier, 16000, 1000000) },
 		Run:         c02Run,
 		Required: func(tier string) []string {
-			l := []string{"int:spelling-equal", "int:wraparound-literal", "int:above-2^53", "uint:wraparound-literal", "uint:above-maxint64", "float32_midpoint_witnesses", "float64_cases", "jsonnumber_cases", "coerce_direct",
+			l := []string{"hash_twin_rounds", "int:spelling-equal", "int:wraparound-literal", "int:above-2^53", "uint:wraparound-literal", "uint:above-maxint64", "float32_midpoint_witnesses", "float64_cases", "jsonnumber_cases", "coerce_direct",
 				"nonscalar:interface", "nonscalar:slice", "nonscalar:map", "nonscalar:struct", "nonscalar:ptr"}
 			for _, k := range []string{"int", "int8", "int16", "int32", "int64", "uint", "uint8", "uint16", "uint32", "uint64", "float32", "float64", "bool", "string"} {
 				l = append(l, "kind:"+k+"/T", "kind:"+k+"/F")
